@@ -177,3 +177,326 @@ UNITS = [ArithmeticMiddle(), Refine()]
 ASSUMPTIONS = ["A1: floats are mathematical reals", "np.insert / np.concatenate on arrays of symbolic length are modelled as array lambdas (library model)"]
 TRUSTED_BASE = ["z3 5.1 (LRA + arrays + quantifiers with explicit instances)", "pyvc interpreter + numpy models"]
 BOUNDED = []
+
+
+# ----------------------------------------------------------------- constructors: assembly  left | 0 | right
+class Truncation(FunctionContract):
+    """assumed contract (A3, root finder): compute_truncation returns roots inside the brentq brackets
+    [-100, -h/2] and [h/2, 100]"""
+    prop = "C13"
+    target = SP + "compute_truncation"
+    name = "compute_truncation(assumed)"
+
+    def requires(self, h=None, **kw):
+        return h > 0
+
+    def ensures(self, result, h=None, **kw):
+        l, r = result
+        return {"brackets": And(2 * l <= -h, 2 * r >= h)}
+
+    def modular_result(self, vc, **kw):
+        l, r = vc.fresh("l", "r"), vc.fresh("r", "r")
+        vc.register("truncation_left", l)
+        vc.register("truncation_right", r)
+        return (l, r)
+
+
+def wf_clauses(grid, h, d, prefix="", split_inc=False):
+    """well-formedness of a built grid, one clause per statement of the property (concrete-length axes)"""
+    out = {}
+    axes = grid.fields["axes"]
+    oc = grid.fields["origin_coordinate"].fields["value"]
+    out[prefix + "dimension"] = len(axes) == d
+    for k, ax in enumerate(axes):
+        ax = list(ax)
+        o = oc if d == 1 else oc[k]
+        p = f"{prefix}axis{k}:"
+        o_c = concrete(o)
+        if o_c is None:
+            out[p + "origin-index-concrete"] = False
+            continue
+        inc = And(*[a < b for a, b in zip(ax, ax[1:])]) if len(ax) > 1 else True
+        if split_inc:
+            far = And(ax[0] < -h, ax[-1] > h)
+            out[p + "strictly-increasing[truncation bounds beyond the first step]"] = Implies(far, inc)
+            out[p + "strictly-increasing[a truncation bound inside the first step]"] = Implies(Not(far), inc)
+        else:
+            out[p + "strictly-increasing"] = inc
+        out[p + "zero-at-origin-index"] = (0 <= o_c < len(ax)) and ax[o_c] == 0
+        out[p + "left-neighbour-is-minus-h"] = (o_c >= 1) and ax[o_c - 1] == -h
+        out[p + "right-neighbour-is-plus-h"] = (o_c + 1 < len(ax)) and ax[o_c + 1] == h
+        t = grid.fields["truncations"][k]
+        out[p + "end-points-are-the-reported-truncations"] = And(t[0] == ax[0], t[1] == ax[-1])
+    out[prefix + "h-recorded"] = grid.fields["h"] == h
+    return out
+
+
+class UniformGridInit(FunctionContract):
+    """CTMCUniformGrid.__init__ for every pair (points left, points right) in 0..3 x 0..3 (h, l, r symbolic)."""
+    prop = "C13"
+    target = SP + "CTMCUniformGrid.__init__"
+    cases = tuple((nl, nr) for nl in range(0, 4) for nr in range(0, 4))
+
+    def __init__(self):
+        self.name = "CTMCUniformGrid.__init__"
+        self.modular = (Truncation(),)
+
+    def setup(self, vc, case):
+        h = vc.real("h")
+        model = vc.obj("rpylib.model.levymodel.levymodel:LevyModel")
+        vc.interp.hooks["rpylib.model.model:Model.dimension_model"] = lambda it, f, b: 1
+        vc.ghost["case"] = case
+        return dict(self=vc.obj(SP + "CTMCUniformGrid"), h=h, model=model)
+
+    def configure(self, interp):
+        interp.hooks["rpylib.model.model:Model.dimension_model"] = lambda it, f, b: 1
+
+        def after_lr(L, vc):
+            nl, nr = vc.ghost["case"]
+            vc.assume(And(L.nb_of_points_left == nl, L.nb_of_points_right == nr))
+        self.hints = {"nb_of_points_right": after_lr}
+
+    def requires(self, h=None, **kw):
+        return h > 0
+
+    def ensures(self, result, self_=None, h=None, **kw):
+        return wf_clauses(self_, h, 1)
+
+    raises = {"ValueError": lambda **a: True}      # the 1e8-points guard
+    raises_exact = False
+
+    def replay(self, model, clause, case):
+        # native witness for the degenerate point counts: light-tailed jumps with a coarse h
+        from rpylib.grid.spatial import CTMCUniformGrid
+        from rpylib.model.levymodel.mixed.hem import HEMParameters, ExponentialOfHEMModel
+        out = None
+        for eta, h in ((20.0, 0.5), (50.0, 0.5), (50.0, 0.25)):
+            m = ExponentialOfHEMModel(spot=100.0, r=0.02, d=0.0, parameters=HEMParameters(sigma=0.2, p=0.5, eta1=eta, eta2=eta, intensity=1.0))
+            g = CTMCUniformGrid(h=h, model=m)
+            ax, o = g.axes[0], g.origin_coordinate.value
+            left_ok = o >= 1 and abs(ax[o - 1] + h) < 1e-12
+            right_ok = o + 1 < len(ax) and abs(ax[o + 1] - h) < 1e-12
+            info = {"model": f"HEM eta1=eta2={eta}", "h": h, "axis": [float(v) for v in ax], "origin_index": int(o)}
+            if ("left-neighbour" in clause and not left_ok) or ("right-neighbour" in clause and not right_ok):
+                return (True, info)
+            out = info
+        return (False, out)
+
+
+UNITS += [UniformGridInit()]
+
+
+class FixedPoints(FunctionContract):
+    """CTMCUniformGrid.create_from_fixed_nb_of_points(h, nb_of_points, dimension) for nb_of_points in 2..9, d in 1..3"""
+    prop = "C13"
+    target = SP + "CTMCUniformGrid.create_from_fixed_nb_of_points"
+    cases = tuple((n, d) for n in range(2, 10) for d in (1, 2, 3) if d == 1 or n in (3, 6))
+
+    def __init__(self):
+        self.name = "CTMCUniformGrid.create_from_fixed_nb_of_points"
+
+    def setup(self, vc, case):
+        n, d = case
+        return dict(cls=vc.interp.get_class(SP + "CTMCUniformGrid"), h=vc.real("h"), nb_of_points=n, dimension=d)
+
+    def requires(self, h=None, **kw):
+        return h > 0
+
+    def ensures(self, result, h=None, nb_of_points=None, dimension=None, **kw):
+        out = wf_clauses(result, h, dimension)
+        ax = list(result.fields["axes"][0])
+        out["symmetric-uniform-axis"] = And(*[ax[i + 1] - ax[i] == h for i in range(len(ax) - 1)])
+        out["number-of-points"] = len(ax) == 2 * (nb_of_points // 2) + 1
+        return out
+
+    def replay(self, model, clause, case):
+        from rpylib.grid.spatial import CTMCUniformGrid
+        n, d = case
+        h = 0.25
+        g = CTMCUniformGrid.create_from_fixed_nb_of_points(h=h, nb_of_points=n, dimension=d)
+        ax, o = g.axes[0], (g.origin_coordinate.value if d == 1 else g.origin_coordinate.value[0])
+        bad = not (np.all(np.diff(ax) > 0) and ax[o] == 0 and np.isclose(ax[o - 1], -h) and np.isclose(ax[o + 1], h) and g.truncations[0] == (ax[0], ax[-1]))
+        return (bool(bad), {"axis": ax.tolist(), "origin": int(o)})
+
+
+class GeometricInit(FunctionContract):
+    prop = "C13"
+    target = SP + "CTMCGridGeometric.__init__"
+    cases = (2, 3, 4)
+
+    def __init__(self):
+        self.name = "CTMCGridGeometric.__init__"
+        self.modular = (Truncation(),)
+
+    def configure(self, interp):
+        interp.hooks["rpylib.model.model:Model.dimension_model"] = lambda it, f, b: 1
+
+    def setup(self, vc, case):
+        return dict(self=vc.obj(SP + "CTMCGridGeometric"), h=vc.real("h"), model=vc.obj("rpylib.model.levymodel.levymodel:LevyModel"),
+                    nb_of_points_on_each_side=case)
+
+    def requires(self, h=None, **kw):
+        return h > 0
+
+    def ensures(self, result, self_=None, h=None, **kw):
+        return wf_clauses(self_, h, 1, split_inc=True)
+
+    def replay(self, model, clause, case):
+        from rpylib.grid.spatial import CTMCGridGeometric
+        from rpylib.model.levymodel.mixed.hem import HEMParameters, ExponentialOfHEMModel
+        for eta, h in ((20.0, 0.5), (50.0, 0.5), (5.0, 0.1)):
+            m = ExponentialOfHEMModel(spot=100.0, r=0.02, d=0.0, parameters=HEMParameters(sigma=0.2, p=0.5, eta1=eta, eta2=eta, intensity=1.0))
+            g = CTMCGridGeometric(h=h, model=m, nb_of_points_on_each_side=case)
+            ax, o = g.axes[0], g.origin_coordinate.value
+            if not np.all(np.diff(ax) > 0):
+                return (True, {"model": f"HEM eta={eta}", "h": h, "axis": ax.tolist()})
+        return (False, {})
+
+
+class GeometricBounds(FunctionContract):
+    prop = "C13"
+    target = SP + "CTMCGridGeometric.create_with_bounds"
+    cases = tuple((n, d) for n in (2, 3, 4) for d in (1, 2))
+
+    def __init__(self):
+        self.name = "CTMCGridGeometric.create_with_bounds"
+
+    def setup(self, vc, case):
+        n, d = case
+        return dict(cls=vc.interp.get_class(SP + "CTMCGridGeometric"), h=vc.real("h"), truncations=(vc.real("l"), vc.real("r")),
+                    dimension=d, nb_of_points_on_each_side=n)
+
+    def requires(self, h=None, truncations=None, **kw):
+        l, r = truncations
+        return And(h > 0, l < -h, r > h)       # documented use: bounds beyond the first step
+
+    def ensures(self, result, h=None, dimension=None, truncations=None, **kw):
+        out = wf_clauses(result, h, dimension)
+        out["bounds-are-the-given-truncations"] = And(*[And(t[0] == truncations[0], t[1] == truncations[1]) for t in result.fields["truncations"]])
+        return out
+
+
+class CreditInit(FunctionContract):
+    """CTMCCredit.__init__: 1-d, and 2-d symmetric / asymmetric; thresholds strictly between the left bound and -h"""
+    prop = "C13"
+    target = SP + "CTMCCredit.__init__"
+    cases = ("1d", "2d-symmetric", "2d-asymmetric")
+    raises = {"ValueError": lambda **a: True}
+    raises_exact = False
+
+    def __init__(self):
+        self.name = "CTMCCredit.__init__"
+        self.modular = (Truncation(),)
+
+    def configure(self, interp):
+        from pyvc import ctx
+        interp.hooks["rpylib.model.model:Model.dimension_model"] = lambda it, f, b: ctx.PATH.ghost["dim"]
+
+    def setup(self, vc, case):
+        d = 1 if case == "1d" else 2
+        vc.ghost["dim"] = d
+        h = vc.real("h")
+        a = vc.real("level_a") if d == 1 else vc.reals("level_a", 2)
+        return dict(self=vc.obj(SP + "CTMCCredit"), h=h, level_a=a, model=vc.obj("rpylib.model.levymodel.levymodel:LevyModel"),
+                    symmetric_grid=(case != "2d-asymmetric"))
+
+    def requires(self, h=None, level_a=None, **kw):
+        return h > 0
+
+    def ensures(self, result, self_=None, h=None, level_a=None, **kw):
+        d = 1 if not isinstance(level_a, list) else len(level_a)
+        out = wf_clauses(self_, h, d, split_inc=True)
+        levels = [level_a] if d == 1 else level_a
+        for k, (ax, a) in enumerate(zip(self_.fields["axes"], levels)):
+            ax = list(ax)
+            out[f"axis{k}:threshold-is-the-boundary-between-its-two-states"] = ax[1] + ax[2] == 2 * a
+            out[f"axis{k}:threshold-states-distinct"] = ax[1] < ax[2]
+        return out
+
+    def replay(self, model, clause, case):
+        # native witnesses: left-heavy HEM margins (p=0.1, eta1=40, eta2=4): l = -2.90, r = 0.31
+        from rpylib.grid.spatial import CTMCCredit, compute_truncation
+        from rpylib.model.levymodel.mixed.hem import HEMParameters, HEMModel
+        from rpylib.model.levycopulamodel import LevyCopulaModel
+        from rpylib.distribution.levycopula import ClaytonCopula
+        mk = lambda: HEMModel(parameters=HEMParameters(sigma=0.2, p=0.1, eta1=40.0, eta2=4.0, intensity=1.0))
+        m = mk() if case == "1d" else LevyCopulaModel(models=[mk(), mk()], copula=ClaytonCopula(theta=0.7, eta=0.3))
+        h = 0.8 if "inside the first step" in clause else 0.05
+        l, r = compute_truncation(m, h)
+        a = 0.8 * l if case == "1d" else [0.8 * l, 0.7 * l]
+        try:
+            g = CTMCCredit(h=h, level_a=a, model=m, symmetric_grid=(case != "2d-asymmetric"))
+        except ValueError as e:
+            return (False, {"rejected": str(e)})
+        bad = any(not np.all(np.diff(ax) > 0) for ax in g.axes)
+        return (bool(bad), {"model": "HEM p=0.1 eta1=40 eta2=4" + ("" if case == "1d" else " x2, Clayton"), "h": h, "truncation": [float(l), float(r)],
+                            "level_a": a, "axes": [ax.tolist() for ax in g.axes]})
+
+
+UNITS += [FixedPoints(), GeometricInit(), GeometricBounds(), CreditInit()]
+
+
+# ================================================================= bounded stand-in (native battery; never counted as proved)
+class GridsBattery:
+    """B2: every constructor on the model battery x h in H: well-formedness, reported truncations, tail-probability /
+    per-step-probability targets (root-finder outputs, assumed in the proofs), and two successive refinements."""
+    name = "bounded:grids-battery"
+    tier = "quick"
+
+    def run(self, tier, seed):
+        from contracts import battery
+        from rpylib.grid.spatial import CTMCUniformGrid, CTMCGridGeometric, CTMCGridProbabilityStep
+        H = (0.05, 0.02) if tier == "quick" else (0.1, 0.05, 0.02, 0.01)
+        ev, viol, samples = 0, {}, []
+        ms = battery.models()
+        for mname, m in ms.items():
+            nu = m.levy_triplet.nu
+            for h in H:
+                ctors = {"uniform": lambda: CTMCUniformGrid(h=h, model=m),
+                         "geometric": lambda: CTMCGridGeometric(h=h, model=m, nb_of_points_on_each_side=4),
+                         "probability-step": lambda: CTMCGridProbabilityStep(h=h, model=m, minimum_probability_step=0.05)}
+                for cname, mk in ctors.items():
+                    ev += 1
+                    info = {"model": mname, "h": h, "constructor": cname}
+                    try:
+                        g = mk()
+                        ax, o = g.axes[0], g.origin_coordinate.value
+                        ok = battery.wf_axis(ax, o, h) and g.truncations[0] == (ax[0], ax[-1])
+                        info.update(points=len(ax), truncations=[float(ax[0]), float(ax[-1])])
+                        if cname in ("uniform", "geometric"):
+                            # target tail probability 0.99999 on each side beyond the central cell
+                            right = nu.integrate(h / 2, ax[-1]) / nu.integrate(h / 2, np.inf)
+                            left = nu.integrate(ax[0], -h / 2) / nu.integrate(-np.inf, -h / 2)
+                            info.update(tail=[float(left), float(right)])
+                            ok = ok and abs(left - 0.99999) < 1e-6 and abs(right - 0.99999) < 1e-6
+                        if cname == "probability-step":
+                            lam = g.intensity_of_jumps
+                            steps = [nu.integrate(a, b) / lam for a, b in zip(ax[o + 1:-2], ax[o + 2:-1])]
+                            info.update(max_step_probability=float(max(steps)) if steps else None)
+                            ok = ok and all(s <= 0.05 + 1e-6 for s in steps)
+                        old = ax.copy()
+                        for _ in range(2):
+                            prev, po, ph = g.axes[0].copy(), g.origin_coordinate.value, g.h
+                            g.refine()
+                            new = g.axes[0]
+                            mids = np.array([g.middle(float(a), float(b)) for a, b in zip(prev, prev[1:])]) if cname != "probability-step" else new[1::2]
+                            ok = ok and len(new) == 2 * len(prev) - 1 and np.allclose(new[::2], prev, rtol=0, atol=0) and np.all(np.diff(new) > 0) \
+                                and g.origin_coordinate.value == 2 * po and g.h == ph / 2 and np.allclose(new[1::2], mids) \
+                                and g.truncations[0] == (old[0], old[-1])
+                    except Exception as e:
+                        ok = False
+                        info["exception"] = f"{type(e).__name__}: {e}"
+                    if len(samples) < 4:
+                        samples.append(info)
+                    if not ok:
+                        viol.setdefault(f"{self.name}[{cname}]::well-formed-targets-and-nesting", {"obligation": f"{self.name}[{cname}]::well-formed-targets-and-nesting", "bounded": self.name, "witness": info})
+        return {"name": self.name, "evaluations": ev, "distinct_nontrivial": ev, "violations": list(viol.values()), "samples": samples,
+                "bound": f"models {sorted(ms)} x h in {H} x 3 constructors x 2 refinements"}
+
+    def replay(self, rec):
+        r = self.run("thorough", 0)
+        hit = [v for v in r["violations"] if v["obligation"] == rec["obligation"]]
+        return (bool(hit), hit[0]["witness"] if hit else {})
+
+
+BOUNDED = [GridsBattery()]
